@@ -504,7 +504,7 @@ impl Engine for BuggifyEngine {
     fn jobs(&self, tier: Tier) -> u64 {
         match tier {
             Tier::Quick => 128,
-            Tier::Thorough => 2400,
+            Tier::Thorough => 6000,
         }
     }
 
